@@ -108,7 +108,11 @@ def render(rng, desc, fmt, npre):
             else:
                 lines.append(f"{letters}{sp()}{len(rows)}{sp()}1.00")
                 rws = [(e, cs[:len(ls)]) for e, cs in rows]
+            # comment / blank lines inside a shell: after the header, between two primitives (about one shell in four)
+            interior = rng.random() < 0.25
             for e, cs in rws:
+                if interior and rng.random() < 0.5:
+                    lines.append(rng.choice(["# interior comment", "", "   ", "#"]) if fmt == "nw" else rng.choice(["! interior comment", "!"]))
                 lines.append(" " * rng.randint(0, 8) + e + "".join(sp() + c for c in cs) + (" " * rng.randint(0, 3)))
         if fmt == "gbs":
             lines.append("****")
